@@ -29,7 +29,12 @@ const SCRIPT_MEMORY_LIMIT: usize = 1 << 30;
 pub struct LuaCommandContext {
     pub db_index: usize,
     pub storage: Arc<StorageEngine>,
+    /// What PUBLISH does (the engine itself has the dataset only): set by the server, None when scripts run without one
+    pub publish: Option<PublishFn>,
 }
+
+/// (channel, message) -> the number of deliveries: the body of the server's PUBLISH
+pub type PublishFn = Arc<dyn Fn(&[u8], &[u8]) -> Result<usize> + Send + Sync>;
 
 /// Single-threaded Lua execution engine with unified command processing
 pub struct LuaEngine {
@@ -217,16 +222,18 @@ impl LuaEngine {
         
         let storage_ref = ctx.storage.clone();
         let db_index = ctx.db_index;
+        let publish = ctx.publish.clone();
         
         // redis.call: Errors terminate the script immediately
         let redis_call = lua.create_function(move |lua_ctx, cmd: MultiValue| -> LuaResult<LuaValue> {
-            Self::execute_unified_redis_command(&storage_ref, lua_ctx, cmd, db_index, false)
+            Self::execute_unified_redis_command(&storage_ref, lua_ctx, cmd, db_index, false, &publish)
         }).map_err(|e| FerrousError::LuaError(e.to_string()))?;
         
         let storage_ref_pcall = ctx.storage.clone();
+        let publish_pcall = ctx.publish.clone();
         // redis.pcall: Errors return nil, script continues
         let redis_pcall = lua.create_function(move |lua_ctx, cmd: MultiValue| -> LuaResult<LuaValue> {
-            Self::execute_unified_redis_command(&storage_ref_pcall, lua_ctx, cmd, db_index, true)
+            Self::execute_unified_redis_command(&storage_ref_pcall, lua_ctx, cmd, db_index, true, &publish_pcall)
         }).map_err(|e| FerrousError::LuaError(e.to_string()))?;
         
         redis_table.set("call", redis_call).map_err(|e| FerrousError::LuaError(e.to_string()))?;
@@ -243,6 +250,7 @@ impl LuaEngine {
         cmd: MultiValue,
         db_index: usize,
         is_pcall: bool,
+        publish: &Option<PublishFn>,
     ) -> LuaResult<LuaValue> {
         // Parse command arguments
         let mut args = Vec::new();
@@ -313,6 +321,17 @@ impl LuaEngine {
                     format!("'{}' administrative command is not allowed inside Lua scripts", cmd_name),
                     is_pcall
                 );
+            }
+            // PUBLISH is not a dataset command: the server's own PUBLISH, through the hook it handed in (a script
+            // inside MULTI runs at EXEC time, so its messages go out then, like a queued PUBLISH's)
+            "PUBLISH" if publish.is_some() => {
+                if args.len() != 3 {
+                    return Self::handle_command_error_with_context(lua_ctx, "wrong number of arguments for 'publish' command".to_string(), is_pcall);
+                }
+                match (publish.as_ref().unwrap())(&args[1], &args[2]) {
+                    Ok(deliveries) => Ok(LuaValue::Integer(deliveries as i64)),
+                    Err(e) => Self::handle_command_error_with_context(lua_ctx, e.to_string(), is_pcall),
+                }
             }
             _ => {
                 // Route through unified command processor
